@@ -59,6 +59,13 @@ def gettext(node: Union[nodes.Node, List[nodes.Node]]) -> List[str]:
 _TARGET_RE = re.compile(r'^(.*?)\s*<(?:URI:|URL:)?([^<>]+)>$')
 _VALID_IDENTIFIER_RE = re.compile('[^0-9a-zA-Z_]')
 
+def _is_script_uri(uri: str) -> bool:
+    """
+    Whether the address runs a script instead of naming a location.
+    """
+    # Browsers ignore the spaces and the control characters when they read the scheme of an address.
+    return re.sub('[\x00-\x20]+', '', uri).lower().startswith(('javascript:', 'vbscript:'))
+
 def _valid_identifier(s: str) -> str:
     """Remove invalid characters to create valid CSS identifiers. """
     return _VALID_IDENTIFIER_RE.sub('', s)
@@ -213,6 +220,13 @@ class HTMLTranslator(html4css1.HTMLTranslator):
                 node['alt'] = alt
             else:
                 del node['alt']
+
+    def visit_reference(self, node: nodes.Node) -> None:
+        if _is_script_uri(node.get('refuri', '')):
+            # The address is a script, not a location: only present the text, not a link.
+            # docutils turns the mere words "javascript:..." into such an address.
+            raise nodes.SkipDeparture()
+        super().visit_reference(node)
 
     def visit_doctest_block(self, node: nodes.Node) -> None:
         pysrc = node[0].astext()
